@@ -107,7 +107,6 @@ type sqlLexer struct {
 	src     string
 	start   int
 	pos     int
-	nested  int // multiline comment nesting level.
 	stateFn stateFn
 	parts   []Part
 }
@@ -334,23 +333,16 @@ func multilineCommentState(l *sqlLexer) stateFn {
 		l.pos += width
 
 		switch r {
-		case '/':
-			nextRune, width := utf8.DecodeRuneInString(l.src[l.pos:])
-			if nextRune == '*' {
-				l.pos += width
-				l.nested++
-			}
 		case '*':
+			// the parser does not nest block comments: the first */ closes the
+			// comment, whatever /* it contains
 			nextRune, width := utf8.DecodeRuneInString(l.src[l.pos:])
 			if nextRune != '/' {
 				continue
 			}
 
 			l.pos += width
-			if l.nested == 0 {
-				return rawState
-			}
-			l.nested--
+			return rawState
 
 		case utf8.RuneError:
 			if width != replacementcharacterwidth {
